@@ -243,6 +243,41 @@ for n1, n2 in ((4, 4), (4, 300), (256, 257), (200, 70), (3, 66000)):
                 lambda n1=n1, n2=n2, order=order: positional_contract(n1, n2, order))
 
 
+def long_positional_contract(l1, l2, n_sym):
+    """sequences longer than 256 positions (the positional alphabet then needs wider codes than the original one):
+    every position keeps a code of its own, scores as its symbol does, and the optimum is the original one"""
+    rng = np.random.default_rng(l1 * 1000 + l2 + n_sym)
+    a = seq.Alphabet(list(range(n_sym)))
+    table = rng.integers(-5, 8, size=(n_sym, n_sym)).astype(np.int32)
+    m = align.SubstitutionMatrix(a, a, table)
+    s1 = seq.GeneralSequence(a, rng.integers(0, n_sym, size=l1).tolist())
+    s2 = seq.GeneralSequence(a, rng.integers(0, n_sym, size=l2).tolist())
+    pm, p1, p2 = m.as_positional(s1, s2)
+    for name, p, s in (("first", p1, s1), ("second", p2, s2)):
+        if len(p) != len(s) or sorted(int(c) for c in p.code) != list(range(len(s))):
+            dup = [int(c) for c in p.code][250:262]
+            return f"positions of the {name} sequence ({len(s)} symbols) do not have codes of their own: codes around position 256 are {dup}"
+        if p.reconstruct() != s:
+            return f"the {name} positional sequence does not reconstruct the original"
+    for i in list(range(0, l1, 37)) + [255, 256, 257, l1 - 1]:
+        for j in list(range(0, l2, 41)) + [255, 256, 257, l2 - 1]:
+            if i < l1 and j < l2 and int(pm.score_matrix()[p1.code[i], p2.code[j]]) != int(table[s1.code[i], s2.code[j]]):
+                return f"positional score of positions ({i}, {j}) differs from the score of the symbols there"
+    for gap, local in ((-4, False), ((-6, -1), True)):
+        ref = align.align_optimal(s1, s2, m, gap_penalty=gap, local=local, max_number=1)[0]
+        got = align.align_optimal(p1, p2, pm, gap_penalty=gap, local=local, max_number=1)[0]
+        if ref.score != got.score:
+            return f"optimum of the positional sequences {got.score}, of the original sequences {ref.score} (gap {gap}, local {local})"
+        if align.score(align.Alignment([s1, s2], got.trace), m, gap_penalty=gap, terminal_penalty=True) != got.score and not local:
+            return "the trace found for the positional sequences does not have that score on the original sequences"
+    return None
+
+
+for l1, l2, n_sym in ((300, 40, 4), (40, 300, 4), (257, 257, 20), (520, 30, 4)):
+    R.check("substitution matrix accessors and transpose() agree with the score table", "as_positional of long sequences",
+            {"lengths": [l1, l2], "alphabet size": n_sym}, lambda l1=l1, l2=l2, n_sym=n_sym: long_positional_contract(l1, l2, n_sym))
+
+
 def extreme_scores(value):
     """scores at the edge of the 32-bit range would overflow in the alignment table: the constructor refuses the two
     extreme values; large but safe magnitudes are accepted and aligned correctly"""
